@@ -217,21 +217,28 @@ package protocol
 //@   ensures[C17] atlock(fin2(h)) ==> (h.err == atlock(h.err) && h.result == atlock(h.result))
 //@   ensures[C17] !atlock(fin2(h)) ==> h.err != nil
 
+// (C09) the two-party handler accepts exactly the messages addressed to this party that carry this session's protocol
+// identifier and tag, come from a member of the session, have content and a round number within the protocol.
+//@ pred canacc2(h *TwoPartyHandler, msg *Message) := msg != nil && msg.From != h.round.SelfID() && (msg.To == "" || msg.To == h.round.SelfID()) && msg.Protocol == h.round.ProtocolID() && bytes_eq(msg.SSID, h.round.SSID()) && ids_contains(h.round.PartyIDs(), msg.From) && msg.Data != nil && msg.RoundNumber <= h.round.FinalRoundNumber()
 //@ func (*TwoPartyHandler).CanAccept
 //@   nopanic[C05,C17]
 //@   requires h != nil && !held(h.mtx)
 //@   ensures[C17] !held(h.mtx)
+//@   ensures[C09] result == atlock(canacc2(h, msg))
+//@   ensures[C09] nochange()
 
 //@ func (*TwoPartyHandler).canAccept
 //@   nopanic[C05,C17]
 //@   requires h != nil && excl(h.mtx) && hshape2(h)
 //@   modifies nothing
 //@   ensures result ==> msg != nil
+//@   ensures[C09] result == canacc2(h, msg)
 
 //@ func (*TwoPartyHandler).Accept
 //@   nopanic[C05,C17]
 //@   requires h != nil && !held(h.mtx)
 //@   ensures[C17] !held(h.mtx)
+//@   ensures[C09] atlock(!canacc2(h, msg)) ==> nochange()
 //@   ensures[C17] atlock(fin2(h)) ==> (h.err == atlock(h.err) && h.result == atlock(h.result))
 
 //@ func (*TwoPartyHandler).abort
